@@ -73,6 +73,7 @@ def make_setting(kind="state", noise="depolarized", n_sample=2, n_rep=2, num_dat
     pv = [("povm", n) for n in ("x", "y", "z")]
     true, testers = {
         "state": (("state", "a"), pv),
+        "state_z": (("state", "z0"), pv),          # near-pure unknown: zero counts occur at small N
         "povm": (("povm", "z"), st),
         "gate": (("gate", "hadamard"), st + pv),
         "mprocess": (("mprocess", "x-type1"), st + pv),
@@ -83,6 +84,14 @@ def make_setting(kind="state", noise="depolarized", n_sample=2, n_rep=2, num_dat
             est.append(LinearEstimator()); algo.append((None, None)); loss.append((None, None)); para_flags.append(True)
         elif cs == "plin":
             est.append(ProjectedLinearEstimator(mode_proj_order="eq_ineq")); algo.append((None, None)); loss.append((None, None)); para_flags.append(False)
+        elif cs == "wlsq":
+            # weighted least squares with data-dependent weights (inverse sample covariance)
+            est.append(LossMinimizationEstimator())
+            algo.append((ProjectedGradientDescentBacktracking(),
+                         ProjectedGradientDescentBacktrackingOption(mode_stopping_criterion_gradient_descent="sum_absolute_difference_variable",
+                                                                    num_history_stopping_criterion_gradient_descent=1)))
+            loss.append((WeightedProbabilityBasedSquaredError(), WeightedProbabilityBasedSquaredErrorOption("inverse_sample_covariance")))
+            para_flags.append(True)
         else:
             est.append(LossMinimizationEstimator())
             algo.append((ProjectedGradientDescentBacktracking(),
